@@ -60,6 +60,6 @@ static void l0_havoc(void) {
 #ifdef WITH_SETS
   l0_havoc_sets();
 #endif
-  { E *nondet_pE(void); pre_p1 = nondet_pE(); pre_p2 = nondet_pE(); void *nondet_pv(void); g_other = nondet_pv(); }
+  { E *nondet_pE(void); pre_p1 = nondet_pE(); pre_p2 = nondet_pE(); void *nondet_pv(void); g_other = nondet_pv(); g_int0 = nondet_int(); }
   pre_self = nondet_vsnap(); pre_o = nondet_vsnap(); pre_g = nondet_gsnap();
 }
